@@ -21,7 +21,7 @@ REPLAYS = os.path.join(EVID, 'replays')
 
 class UnitSpec:
     def __init__(self, name, module, maker, kwargs=None, summaries=True, max_paths=200000, max_seconds=900,
-                 weight=1.0, stubs=True, timeout_ms=60000, prefer='fresh'):
+                 weight=1.0, stubs=True, timeout_ms=60000, prefer='fresh', allow_vacuous=False):
         self.name = name
         self.module = module
         self.maker = maker
@@ -33,6 +33,7 @@ class UnitSpec:
         self.stubs = stubs
         self.timeout_ms = timeout_ms
         self.prefer = prefer
+        self.allow_vacuous = allow_vacuous
 
     def make(self):
         return getattr(importlib.import_module(self.module), self.maker)(**self.kwargs)
@@ -60,7 +61,7 @@ def _worker(spec):
             summaries.uninstall()
         fn = spec.make()
         r = U.run_unit(spec.name, fn, max_paths=spec.max_paths, max_seconds=spec.max_seconds,
-                       timeout_ms=spec.timeout_ms, prefer=spec.prefer)
+                       timeout_ms=spec.timeout_ms, prefer=spec.prefer, allow_vacuous=spec.allow_vacuous)
         d = r.as_dict()
         d['spec'] = spec.as_dict()
         return d
